@@ -127,10 +127,10 @@ func leafConst(id, k int) int32 { return int32((id+1)*100000 + k*1000) }
 func BuildLayout(spec *ModSpec) *Layout {
 	l := &Layout{Gacc: -1, PassElem: -1, PassData: -1, StartFn: -1, ByName: map[string]int{}}
 	nfi := 0
-	for j, im := range spec.Imports {
+	for _, im := range spec.Imports {
 		switch im.Ext.Kind {
 		case wenc.ExtFunc:
-			fi := FuncInfo{Type: im.Ext.Func, Sem: Sem{Op: "import", A: j}}
+			fi := FuncInfo{Type: im.Ext.Func, Sem: Sem{Op: "import", A: nfi}}
 			if !im.Host {
 				fi.Name = fmt.Sprintf("fi%d", nfi)
 			}
